@@ -394,6 +394,7 @@ func c16ListingErrors(c *Ctx) {
 
 func c16Verify(c *Ctx) {
 	c16VerifyForcesCheck(c)
+	c16LocalReadErrors(c)
 	fn := c.mustFn("LocalStore.Verify")
 	if fn == nil {
 		return
@@ -869,5 +870,59 @@ func c16VerifyForcesCheck(c *Ctx) {
 	}
 	if n == 0 {
 		c.bad("cmd.runVerify:forces-verification", fn.Pos(), "the verify command does not open a local store")
+	}
+}
+
+// c16LocalReadErrors: Verify classifies a chunk by the error of LocalStore.GetChunk.  A chunk
+// file that cannot be read (EMFILE with many workers, EACCES, EIO) is neither missing nor
+// invalid: the error of the read must come back as it is, or "verify -r" removes valid chunks.
+// Path rule: on every path on which ReadFile failed with something else than not-exist,
+// GetChunk returns a non-nil error that is not ChunkInvalid/ChunkMissing built from nothing.
+func c16LocalReadErrors(c *Ctx) {
+	fn := c.mustFn("LocalStore.GetChunk")
+	if fn == nil {
+		return
+	}
+	sites := 0
+	var bad []string
+	h := &Hooks{MaxVisits: 2}
+	h.Fork = func(st *State, call *ssa.Call) []map[int]Val {
+		switch callee(call) {
+		case "io/ioutil.ReadFile", "os.ReadFile":
+			sites++
+			return []map[int]Val{{0: {N: NNon}, 1: {N: NNil, Class: ClsNil}}, {1: {N: NNon, Class: ClsOther, Sym: "failed:read"}}}
+		}
+		return nil
+	}
+	h.Call = func(st *State, call *ssa.Call) map[int]Val {
+		if callee(call) == "os.IsNotExist" {
+			return map[int]Val{0: {B: BFalse}} // the interesting case: some other error
+		}
+		if strings.HasSuffix(callee(call), "desync.NewChunkFromStorage") && st.Has("outcome:failed") {
+			st.Flags["built-from-failed-read"] = 1
+		}
+		return nil
+	}
+	h.Return = func(st *State, ret *ssa.Return, results []Val) {
+		if !st.Has("outcome:failed") || len(results) != 2 {
+			return
+		}
+		if st.Flags["built-from-failed-read"] == 1 {
+			bad = append(bad, fmt.Sprintf("the chunk is built at %s from whatever a failed read returned", c.pos(ret.Pos())))
+			return
+		}
+		if results[1].Sym != "failed:read" {
+			bad = append(bad, fmt.Sprintf("return at %s does not hand back the error of the read (%v)", c.pos(ret.Pos()), results[1]))
+		}
+	}
+	Explore(fn, fn.Blocks[0], 0, nil, NewState(), h)
+	c.paths += h.Paths
+	switch {
+	case sites == 0:
+		c.bad("LocalStore.GetChunk:read-errors", fn.Pos(), "GetChunk does not read the chunk file with ReadFile")
+	case len(bad) > 0:
+		c.bad("LocalStore.GetChunk:read-errors", fn.Pos(), "%s: an unreadable chunk (too many open files with many verify workers, permissions, I/O error) is classified invalid and removed by verify -r, or returned empty under skip-verify", bad[0])
+	default:
+		c.ok("LocalStore.GetChunk:read-errors", fn.Pos(), "a read error other than not-exist is returned as it is")
 	}
 }
